@@ -235,7 +235,7 @@ func (w *world) ledgerRecv(c *xchain, pk *pkt, a Ack, out *txOutcome, nested []*
 				w.m.bindAdd(c, t, pk.amount)
 			}
 		}
-		if pk.call == callCounter {
+		if pk.call == callCounter || pk.call == callBigReturn {
 			w.m.counterExp[c.idx]++
 		}
 		for _, np := range nested {
